@@ -34,7 +34,26 @@ def run(ctx):
         ctx.violation(str(e), {"obligation": "build"}, found_input=False)
         return
     rng = ctx.rng
+    # key files of every admissible kind: the minimum, odd, mungekey's maximum, and longer than that
     key = bytes(rng.getrandbits(8) for _ in range(rng.choice([32, 33, 64, 1024])))
+    longkey = bytes(rng.getrandbits(8) for _ in range(rng.choice([1025, 4096])))
+    crl = credcorr.CredRig(ctx, exe, orc, key=longkey, tag="c10long")
+    if crl.ok:
+        for (c, m, z) in ((4, 5, 0), (0, 3, 3), (5, 6, 2)):
+            r, diff = crl.encode_both(uid=11, gid=12, cipher=c, mac=m, zip_=z, data=b"long key file")
+            ctx.count(("longkey-d2r", c, m, z, len(longkey)))
+            if diff or r is None or r["error_num"] != 0 or crl.o.parse(r["data"]) is None:
+                fails_long = "a credential emitted under a %d-byte key file is not a v3 credential under that key (reference: %s)" % (len(longkey), diff)
+                ctx.violation(fails_long, {"key_len": len(longkey), "cipher": c, "mac": m, "zip": z}, found_input=True)
+                break
+            e = crl.o.enc(c, m, z, b"", 60, ANY, ANY, b"reference under long key", 0, 5, 6, crl.now, b"12345678", bytes(16))
+            d, mm, diff = crl.decode_both(e["data"], uid=1, gid=1)
+            ctx.count(("longkey-r2d", c, m, z, len(longkey)))
+            if d is None or d["error_num"] != 0 or d["data"] != b"reference under long key":
+                ctx.violation("munged with a %d-byte key file rejects the reference's credential: %s" % (len(longkey), d and (d["error_num"], d["error_str"]),),
+                              {"key_len": len(longkey)}, found_input=True)
+                break
+        crl.stop()
     cr = credcorr.CredRig(ctx, exe, orc, key=key, tag="c10")
     if not cr.ok:
         ctx.violation("daemon does not start", {"obligation": "start"}, found_input=False)
